@@ -1,0 +1,147 @@
+//! Instrumentation used by external runtime monitors. Only compiled with
+//! the `verif` feature; nothing here is reachable in a normal build.
+//!
+//! The virtual machine is single threaded, so plain atomics with relaxed
+//! ordering and thread locals are enough to keep the monitor state.
+
+use std::cell::RefCell;
+use std::sync::atomic::{AtomicBool, AtomicU64, Ordering::Relaxed};
+
+/// 0 stock trigger only, 1 every k-th allocation, 2 seeded bernoulli,
+/// 3 explicit allocation numbers
+pub static GC_MODE: AtomicU64 = AtomicU64::new(0);
+
+/// Period for mode 1
+pub static GC_K: AtomicU64 = AtomicU64::new(1);
+
+/// Probability numerator (out of 65536) for mode 2
+pub static GC_P: AtomicU64 = AtomicU64::new(0);
+
+/// Generator state for mode 2
+pub static GC_RNG: AtomicU64 = AtomicU64::new(0x9E37_79B9_7F4A_7C15);
+
+/// When set the byte threshold trigger never fires
+pub static GC_NO_STOCK: AtomicBool = AtomicBool::new(false);
+
+/// 0 stock sweep selection, 1 always full, 2 always nursery, 3 alternate
+pub static SWEEP_MODE: AtomicU64 = AtomicU64::new(0);
+
+/// Check the intern table against the marked strings inside every collection
+pub static CHECK_INTERN: AtomicBool = AtomicBool::new(false);
+
+/// Record a heap snapshot after every collection
+pub static SNAPSHOT: AtomicBool = AtomicBool::new(false);
+
+pub static ALLOCS: AtomicU64 = AtomicU64::new(0);
+pub static COLLECTIONS: AtomicU64 = AtomicU64::new(0);
+pub static FULL_SWEEPS: AtomicU64 = AtomicU64::new(0);
+pub static NURSERY_SWEEPS: AtomicU64 = AtomicU64::new(0);
+pub static OBJS_FREED: AtomicU64 = AtomicU64::new(0);
+pub static INTERN_CHECKS: AtomicU64 = AtomicU64::new(0);
+pub static INTERN_STRINGS_SEEN: AtomicU64 = AtomicU64::new(0);
+
+/// A view of the allocator after a collection
+#[derive(Debug, Clone, Default)]
+pub struct Snapshot {
+  pub gc_count: u64,
+  pub full: bool,
+  pub bytes_allocated: usize,
+  pub next_gc: usize,
+  pub sum_sizes: usize,
+  pub heap_len: usize,
+  pub obj_heap_len: usize,
+  pub nursery_len: usize,
+  pub intern_len: usize,
+  pub live_strings: usize,
+  pub temp_roots: usize,
+  pub kinds: [usize; 16],
+}
+
+thread_local! {
+  static POINTS: RefCell<Vec<u64>> = const { RefCell::new(Vec::new()) };
+  static VIOLATIONS: RefCell<Vec<String>> = const { RefCell::new(Vec::new()) };
+  static SNAPSHOTS: RefCell<Vec<Snapshot>> = const { RefCell::new(Vec::new()) };
+  static LAST_SWEEP_FULL: RefCell<bool> = const { RefCell::new(false) };
+}
+
+/// Set the allocation numbers (1 based) at which mode 3 collects
+pub fn set_points(mut points: Vec<u64>) {
+  points.sort_unstable();
+  POINTS.with(|p| *p.borrow_mut() = points);
+}
+
+fn next_rand() -> u64 {
+  // xorshift64*
+  let mut x = GC_RNG.load(Relaxed);
+  x ^= x >> 12;
+  x ^= x << 25;
+  x ^= x >> 27;
+  GC_RNG.store(x, Relaxed);
+  x.wrapping_mul(0x2545_F491_4F6C_DD1D)
+}
+
+/// Called once per managed allocation. Says if a scheduled collection is due
+/// and optionally disables the byte threshold.
+pub fn gc_due(next_gc: &mut usize) -> bool {
+  let n = ALLOCS.fetch_add(1, Relaxed) + 1;
+
+  if GC_NO_STOCK.load(Relaxed) {
+    *next_gc = usize::MAX;
+  }
+
+  match GC_MODE.load(Relaxed) {
+    1 => n % GC_K.load(Relaxed).max(1) == 0,
+    2 => (next_rand() >> 48) < GC_P.load(Relaxed),
+    3 => POINTS.with(|p| p.borrow().binary_search(&n).is_ok()),
+    _ => false,
+  }
+}
+
+/// Should the sweep kind be something other than the stock choice
+pub fn sweep_override() -> Option<bool> {
+  match SWEEP_MODE.load(Relaxed) {
+    1 => Some(true),
+    2 => Some(false),
+    3 => Some(COLLECTIONS.load(Relaxed) % 2 == 0),
+    _ => None,
+  }
+}
+
+pub fn note_sweep(full: bool) {
+  if full {
+    FULL_SWEEPS.fetch_add(1, Relaxed);
+  } else {
+    NURSERY_SWEEPS.fetch_add(1, Relaxed);
+  }
+  LAST_SWEEP_FULL.with(|l| *l.borrow_mut() = full);
+}
+
+pub fn last_sweep_full() -> bool {
+  LAST_SWEEP_FULL.with(|l| *l.borrow())
+}
+
+pub fn violation(message: String) {
+  VIOLATIONS.with(|v| {
+    let mut v = v.borrow_mut();
+    if v.len() < 64 {
+      v.push(message)
+    }
+  });
+}
+
+pub fn take_violations() -> Vec<String> {
+  VIOLATIONS.with(|v| std::mem::take(&mut *v.borrow_mut()))
+}
+
+pub fn push_snapshot(snapshot: Snapshot) {
+  SNAPSHOTS.with(|s| {
+    let mut s = s.borrow_mut();
+    if s.len() < 100_000 {
+      s.push(snapshot)
+    }
+  });
+}
+
+pub fn take_snapshots() -> Vec<Snapshot> {
+  SNAPSHOTS.with(|s| std::mem::take(&mut *s.borrow_mut()))
+}
